@@ -187,5 +187,44 @@ class RecoverCompact(Family):
         return 'recovered', True
 
 
+class Magic(Family):
+    """the digest is sha256d(varstr(magic) || varstr(message)) for every magic string, including the empty one and
+    non-ASCII ones; a signature under one magic does not verify under another"""
+    name = 'magic_strings'
+    nontrivial_rule = 'magic differs from the default'
+
+    MAGICS = [None, '', 'Bitcoin Signed Message:\n', 'Bitcoin Signed Message:', 'x', 'Litecoin Signed Message:\n', 'm' * 253, 'é']
+
+    def cases(self, shard, tier):
+        for mi in range(len(self.MAGICS)):
+            for text in ('', 'a', 'hello', 'x' * 253):
+                yield (mi, text)
+
+    def check(self, case):
+        from bitcoin.wallet import CBitcoinSecret, P2PKHBitcoinAddress
+        from bitcoin.signmessage import BitcoinMessage, SignMessage, VerifyMessage
+        C.select('mainnet')
+        mi, text = case
+        magic = self.MAGICS[mi]
+        msg = BitcoinMessage(text) if magic is None else BitcoinMessage(text, magic)
+        mb = MAGIC if magic is None else magic.encode('utf-8')
+        want = W.sha256d(W.var_bytes(mb) + W.var_bytes(text.encode('utf-8')))
+        if msg.GetHash() != want:
+            raise Viol('digest of message %r under magic %r' % (text[:10], magic if magic is None else magic[:12]), want.hex(), msg.GetHash().hex())
+        key = CBitcoinSecret.from_secret_bytes(K.sbytes(K.SECRETS[2]), True)
+        sig, owned = K.with_nonce(7, SignMessage, key, msg)
+        addr = P2PKHBitcoinAddress.from_pubkey(key.pub)
+        if VerifyMessage(addr, msg, sig) is not True:
+            raise Viol('own signature under magic %r does not verify' % (magic,), True, False)
+        for mj, other in enumerate(self.MAGICS):
+            ob = MAGIC if other is None else other.encode('utf-8')
+            if ob == mb:
+                continue
+            m2 = BitcoinMessage(text) if other is None else BitcoinMessage(text, other)
+            if VerifyMessage(addr, m2, sig) is not False:
+                raise Viol('signature made under magic %r verifies under magic %r' % (magic, other), False, True)
+        return 'ok', magic is not None
+
+
 def families(tier):
-    return [SignVerify(), RecoverCompact()]
+    return [SignVerify(), RecoverCompact(), Magic()]
